@@ -202,8 +202,9 @@ func fiExec(enc *json.Encoder, t int, ops []fiOp, contents map[int][]byte, readS
 			enc.Encode(map[string]interface{}{"t": t, "ev": "Load", "res": res, "torn": torn, "idx": fiProject(idx, dir)})
 		}
 	}
-	if readSweep {
-		// every truncation and a set of single-byte corruptions of the serialized final index
+	{
+		// the serialized final index always reads back (every history); every truncation and a set of
+		// single-byte corruptions of it only for the sampled histories (readSweep)
 		scr, _ := fiScan(nil, dir)
 		ser, err := fontscan.VerifSerialize(scr)
 		if err != nil {
@@ -222,6 +223,9 @@ func fiExec(enc *json.Encoder, t int, ops []fiOp, contents map[int][]byte, readS
 			enc.Encode(ev)
 		}
 		try("full", len(ser), ser)
+		if !readSweep {
+			return
+		}
 		for k := 0; k < len(ser); k++ {
 			try("prefix", k, ser[:k])
 		}
